@@ -9,7 +9,7 @@ EXTENDS FedRound, TraceBatch, Json
 
 tvars == <<vars, tid, l>>
 TraceInit == /\ BatchInit /\ inst = Traces[tid].inst /\ Start
-\* canonical order: always the smallest pending client
+\* canonical order: always the first pending position of the cohort
 Canon == \/ (cur = 0 /\ pending # {} /\ StartClient(CHOOSE c \in pending : \A d \in pending : c <= d))
          \/ ClientStep \/ FinishClient \/ ServerUpdate
 TraceNext == Canon /\ UNCHANGED <<tid, l>>
@@ -19,13 +19,14 @@ Verdicts == /\ Check("EqualsDefinition", EqualsDefinition, TRUE)
             /\ OkSoFar
 \* Mime with plain SGD and a single local step: one full-batch gradient step over the cohort, scaled by the server
 \* learning rate (inst.mime_slr):  w - slr * lr * (w - mean of all examples of the cohort), leaf by leaf
-RECURSIVE SumAll(_, _)
-SumAll(S, lf) == IF S = {} THEN 0
-                ELSE LET c == CHOOSE x \in S : TRUE
-                         idx == [i \in 1..Len(inst.data[c]) |-> i]
-                     IN SumX(c, idx, lf) + SumAll(S \ {c}, lf)
-FullBatchGrad(r, w) == LET n == Examples(Cohort(r))
-                       IN [lf \in Leaves |-> IF n = 0 THEN RZero ELSE RSub(w[lf], Norm(SumAll(Cohort(r), lf), n))]
+RECURSIVE SumAll(_, _, _)
+SumAll(P, r, lf) == IF P = {} THEN 0
+                   ELSE LET i == CHOOSE x \in P : TRUE
+                            c == inst.cohorts[r][i]
+                            idx == [j \in 1..Len(inst.data[c]) |-> j]
+                        IN SumX(c, idx, lf) + SumAll(P \ {i}, r, lf)
+FullBatchGrad(r, w) == LET n == Examples(r)
+                       IN [lf \in Leaves |-> IF n = 0 THEN RZero ELSE RSub(w[lf], Norm(SumAll(CohortPos(r), r, lf), n))]
 RECURSIVE MimeAfter(_)
 MimeAfter(r) == IF r = 0 THEN inst.init
                 ELSE LET w == MimeAfter(r - 1)
